@@ -1,9 +1,11 @@
 /-
   Ohsl.Lemmas.LUDet — the in-place LU factorisation with partial pivoting
-  (`Mat.luPivot`, `Mat.luElimRow`, `Mat.luStep`, `Mat.luDecomp`) over an exact linearly ordered
-  field, and its relation to `Matrix.det`.
+  (`Mat.luPivot`, `Mat.luElimRow`, `Mat.luStep`, `Mat.luDecomp`) over an exact field, and its
+  relation to `Matrix.det`.
 
-  Class (E): `divM` fails exactly on a zero divisor, `mag = |·|`, `lt = <`.
+  Class (E): `divM` fails exactly on a zero divisor (`Alg.DivLaw`) and the pivot comparison
+  `lt (mag a) (mag b)` compares a size in a linear order (`Alg.PivotLaws`): a linearly ordered
+  field with `Alg.scalarExt` (`mag = |·|`, `lt = <`), or the model's `Cx ℝ` (modulus).
 
   Contents
   * `luPivot_spec_det`      pivot search: index in range, non-zero pivot, or the column is zero
@@ -42,55 +44,59 @@ namespace Ohsl
 namespace Mat
 
 section Exact
-variable {K : Type} [Field K] [LinearOrder K] [IsStrictOrderedRing K]
-attribute [local instance] Alg.scalarExt
+variable {K : Type} [Field K]
 
 /-! ### pivot search -/
 
 /-- `luPivot` on column `i` of a described `n × n` matrix: the call succeeds, the returned row
     index lies in `[i, n)`, a non-zero returned magnitude means the entry found is non-zero, and a
     zero magnitude means the column is zero on and below the diagonal. -/
-theorem luPivot_spec_det {m : Mat K} {n : Nat} {w : Nat → Nat → K} (h : Is m n n w) {i : Nat}
+theorem luPivot_spec_det [BEq K] [ScalarExt K] [DecidableEq K] [Alg.PivotLaws K]
+    {m : Mat K} {n : Nat} {w : Nat → Nat → K} (h : Is m n n w) {i : Nat}
     (hi : i < n) :
     ∃ mx imax, luPivot m i = .ok (mx, imax) ∧ i ≤ imax ∧ imax < n ∧
       (mx = 0 → ∀ k, i ≤ k → k < n → w k i = 0) ∧ (mx ≠ 0 → w imax i ≠ 0) := by
   unfold luPivot
   rw [h.rows]
-  obtain ⟨⟨mx, imax⟩, hs, h1, h2, h3, h4, h5⟩ := forM'_inv
-    (fun k (s : K × Nat) => i ≤ s.2 ∧ s.2 < n ∧ 0 ≤ s.1 ∧
-      (∀ k', i ≤ k' → k' < k → |w k' i| ≤ s.1) ∧ (s.1 ≠ 0 → s.1 = |w s.2 i|))
+  obtain ⟨⟨mx, imax⟩, hs, h1, h2, v, hv, h4, h5⟩ := forM'_inv
+    (fun k (s : K × Nat) => i ≤ s.2 ∧ s.2 < n ∧ ∃ v : K, s.1 = ScalarExt.mag v ∧
+      (∀ k', i ≤ k' → k' < k → Alg.PivotLaws.size (w k' i) ≤ Alg.PivotLaws.size v) ∧
+      (s.1 ≠ 0 → s.1 = ScalarExt.mag (w s.2 i)))
     i n ((0 : K), i)
     (fun (mx, imax) k => do
       let x ← m.get k i
       let ax := ScalarExt.mag x
       if ScalarExt.lt mx ax then pure (ax, k) else pure (mx, imax))
     (by omega)
-    ⟨le_refl _, hi, le_refl _, fun k' h1 h2 => by omega, fun h => absurd rfl h⟩
+    ⟨le_refl _, hi, 0, Alg.PivotLaws.mag_zero.symm, fun k' h1 h2 => by omega,
+      fun h => absurd rfl h⟩
     (by
-      rintro k ⟨mx, imax⟩ hk1 hk2 ⟨h1, h2, h3, h4, h5⟩
-      simp only at h1 h2 h3 h4 h5
-      simp only [h.get hk2 hi, bind, Except.bind, Alg.mag_eq_abs, Alg.lt_eq]
-      by_cases hlt : mx < |w k i|
-      · refine ⟨(|w k i|, k), by simp [hlt, pure, Except.pure], hk1, hk2, abs_nonneg _, ?_, fun _ => rfl⟩
+      rintro k ⟨mx, imax⟩ hk1 hk2 ⟨h1, h2, v, hv, h4, h5⟩
+      simp only at h1 h2 hv h4 h5
+      subst hv
+      simp only [h.get hk2 hi, bind, Except.bind, Alg.PivotLaws.lt_mag]
+      by_cases hlt : Alg.PivotLaws.size v < Alg.PivotLaws.size (w k i)
+      · refine ⟨(ScalarExt.mag (w k i), k), by simp [hlt, pure, Except.pure], hk1, hk2,
+          w k i, rfl, ?_, fun _ => rfl⟩
         intro k' hk' hk''
         by_cases e : k' = k
         · subst e; exact le_refl _
         · exact le_of_lt (lt_of_le_of_lt (h4 k' hk' (by omega)) hlt)
-      · refine ⟨(mx, imax), by simp [hlt, pure, Except.pure], h1, h2, h3, ?_, h5⟩
+      · refine ⟨(ScalarExt.mag v, imax), by simp [hlt, pure, Except.pure], h1, h2, v, rfl, ?_, h5⟩
         intro k' hk' hk''
         by_cases e : k' = k
         · subst e; exact not_lt.mp hlt
         · exact h4 k' hk' (by omega))
+  simp only at h1 h2 hv h4 h5
   refine ⟨mx, imax, hs, h1, h2, ?_, ?_⟩
   · intro h0 k hk1 hk2
+    have hv0 : v = 0 := (Alg.mag_eq_zero_iff v).1 (hv.symm.trans h0)
     have := h4 k hk1 hk2
-    simp only [h0] at this
-    exact abs_nonpos_iff.mp this
-  · intro hne
+    rw [hv0] at this
+    exact (Alg.size_le_zero_iff _).1 this
+  · intro hne hz
     have := h5 hne
-    simp only at this
-    intro hz
-    rw [hz, abs_zero] at this
+    rw [hz, Alg.PivotLaws.mag_zero] at this
     exact hne this
 
 /-! ### one row elimination -/
@@ -103,12 +109,13 @@ def elimRowFn (w : Nat → Nat → K) (i j : Nat) : Nat → Nat → K := fun a b
      else if i < b then w j b - w j i / w i i * w i b else w j b)
   else w a b
 
-theorem luElimRow_spec_det {m : Mat K} {n : Nat} {w : Nat → Nat → K} (h : Is m n n w) {i j : Nat}
+theorem luElimRow_spec_det [BEq K] [ScalarExt K] [DecidableEq K] [Alg.DivLaw K]
+    {m : Mat K} {n : Nat} {w : Nat → Nat → K} (h : Is m n n w) {i j : Nat}
     (hi : i < n) (hj : j < n) (hij : i ≠ j) (hp : w i i ≠ 0) :
     ∃ m', luElimRow i m j = .ok m' ∧ Is m' n n (elimRowFn w i j) := by
   unfold luElimRow
   obtain ⟨m1, hm1, hI1⟩ := h.set hj hi (w j i / w i i)
-  simp only [h.get hi hi, h.get hj hi, Alg.divM_ne hp, hm1, bind, Except.bind, hI1.rows]
+  simp only [h.get hi hi, h.get hj hi, Alg.divM_law_ne hp, hm1, bind, Except.bind, hI1.rows]
   obtain ⟨m', hm', hP⟩ := forM'_inv
     (fun k (s : Mat K) => Is s n n (fun a b =>
       if a = j then
@@ -167,7 +174,8 @@ def elimColFn (w : Nat → Nat → K) (i J : Nat) : Nat → Nat → K := fun a b
      else if i < b then w a b - w a i / w i i * w i b else w a b)
   else w a b
 
-theorem luElimCol_spec {m : Mat K} {n : Nat} {w : Nat → Nat → K} (h : Is m n n w) {i : Nat}
+theorem luElimCol_spec [BEq K] [ScalarExt K] [DecidableEq K] [Alg.DivLaw K]
+    {m : Mat K} {n : Nat} {w : Nat → Nat → K} (h : Is m n n w) {i : Nat}
     (hi : i < n) (hp : w i i ≠ 0) :
     ∃ m', forM' (i + 1) n m (luElimRow i) = .ok m' ∧ Is m' n n (elimColFn w i n) := by
   refine forM'_inv (fun J (s : Mat K) => Is s n n (elimColFn w i J)) (i + 1) n m (luElimRow i)
@@ -207,7 +215,8 @@ theorem swapFn_self (w : Nat → Nat → K) (r : Nat) : swapFn w r r = w := by
     zero on and below the diagonal and the state is returned unchanged, or a row `imax ∈ [i, n)`
     with a non-zero entry is exchanged with row `i` (in the matrix and in the recorded
     permutation, counting one exchange when `imax ≠ i`) and the column is eliminated. -/
-theorem luStep_spec_det {s : LU K} {n : Nat} {w pe : Nat → Nat → K} (hw : Is s.lu n n w)
+theorem luStep_spec_det [BEq K] [LawfulBEq K] [ScalarExt K] [DecidableEq K] [Alg.PivotLaws K]
+    {s : LU K} {n : Nat} {w pe : Nat → Nat → K} (hw : Is s.lu n n w)
     (hpe : Is s.perm n n pe) {i : Nat} (hi : i < n) :
     ∃ s', luStep s i = .ok s' ∧
       (((∀ k, i ≤ k → k < n → w k i = 0) ∧ s' = s) ∨
@@ -521,7 +530,8 @@ theorem det_Umat_full (n : Nat) (w : Nat → Nat → K) :
     final in-place matrix, `pe` the recorded permutation matrix and `p` the number of recorded
     exchanges: `det (upper triangle of w) = (-1)^p · det A`, `det P = (-1)^p`, and
     `P·A = L·U` (`LUrel`). -/
-theorem luDecomp_spec_det {A : Mat K} {n : Nat} {a : Nat → Nat → K} (h : Is A n n a) :
+theorem luDecomp_spec_det [BEq K] [LawfulBEq K] [ScalarExt K] [DecidableEq K] [Alg.PivotLaws K]
+    {A : Mat K} {n : Nat} {a : Nat → Nat → K} (h : Is A n n a) :
     ∃ s w pe, luDecomp A = .ok s ∧ Is s.lu n n w ∧ Is s.perm n n pe ∧
       (Umat n n w).det = (-1) ^ s.pivots * (toMat n a).det ∧
       (toMat n pe).det = (-1) ^ s.pivots ∧
@@ -570,7 +580,8 @@ theorem luDecomp_spec_det {A : Mat K} {n : Nat} {a : Nat → Nat → K} (h : Is 
           exact LUrel_elim hi hpv (LUrel_swap h1 h2 hLU))
   exact ⟨s, w, pe, hs, hw, hpe, hdet, hdp, hLU⟩
 
-theorem luDecomp_det {A : Mat K} {n : Nat} {a : Nat → Nat → K} (h : Is A n n a) :
+theorem luDecomp_det [BEq K] [LawfulBEq K] [ScalarExt K] [DecidableEq K] [Alg.PivotLaws K]
+    {A : Mat K} {n : Nat} {a : Nat → Nat → K} (h : Is A n n a) :
     ∃ s w pe, luDecomp A = .ok s ∧ Is s.lu n n w ∧ Is s.perm n n pe ∧
       (Umat n n w).det = (-1) ^ s.pivots * (Matrix.of fun (r c : Fin n) => a r.val c.val).det := by
   obtain ⟨s, w, pe, hs, hw, hpe, hdet, _, _⟩ := luDecomp_spec_det h
@@ -712,7 +723,8 @@ theorem invFwd_spec {lu inv : Mat K} {n : Nat} {w v : Nat → Nat → K} (hw : I
   exact ⟨inv', y, hinv, hI.congr (fun a b ha _ => by simp [ha]), hy⟩
 
 /-- upper-triangular back substitution on column `j` (non-zero diagonal) -/
-theorem invBack_spec {lu inv : Mat K} {n : Nat} {w v : Nat → Nat → K} (hw : Is lu n n w)
+theorem invBack_spec [BEq K] [ScalarExt K] [DecidableEq K] [Alg.DivLaw K]
+    {lu inv : Mat K} {n : Nat} {w v : Nat → Nat → K} (hw : Is lu n n w)
     (hv : Is inv n n v) {j : Nat} (hj : j < n) (hd : ∀ k, k < n → w k k ≠ 0) :
     ∃ (inv' : Mat K) (x : Nat → K), (List.range n).reverse.foldlM (fun inv i => do
         let inv ← forM' (i + 1) n inv (fun inv k => do
@@ -764,7 +776,7 @@ theorem invBack_spec {lu inv : Mat K} {n : Nat} {w v : Nat → Nat → K} (hw : 
       · have hs1' := hs1
         simp only [bind, Except.bind] at hs1' ⊢
         rw [hs1']
-        simp only [g1, hw.get hi hi, Alg.divM_ne hpi]
+        simp only [g1, hw.get hi hi, Alg.divM_law_ne hpi]
         exact hs2
       · intro a b _ _
         by_cases hab : a = i ∧ b = j
@@ -876,7 +888,8 @@ theorem LU_eq_PA {n : Nat} {w pe a : Nat → Nat → K} (hLU : LUrel n n w (PAfn
 
 /-- the column loop of `inverse`: for factors with a non-zero diagonal it succeeds and solves
     `L·(U·X) = P` -/
-theorem inverseLoop_spec {lu p : Mat K} {n : Nat} {w pe : Nat → Nat → K} (hw : Is lu n n w)
+theorem inverseLoop_spec [BEq K] [ScalarExt K] [DecidableEq K] [Alg.DivLaw K]
+    {lu p : Mat K} {n : Nat} {w pe : Nat → Nat → K} (hw : Is lu n n w)
     (hp : Is p n n pe) (hd : ∀ k, k < n → w k k ≠ 0) :
     ∃ (B : Mat K) (b : Nat → Nat → K), forM' 0 n p (fun inv j => do
         let inv ← forM' 0 n inv (fun inv i =>
@@ -966,7 +979,8 @@ theorem inverseLoop_spec {lu p : Mat K} {n : Nat} {w pe : Nat → Nat → K} (hw
   exact hy1 r.val r.isLt
 
 /-- **`inverse()` on a non-singular matrix** succeeds and returns a right inverse -/
-theorem inverse_spec {A : Mat K} {n : Nat} {a : Nat → Nat → K} (h : Is A n n a)
+theorem inverse_spec [BEq K] [LawfulBEq K] [ScalarExt K] [DecidableEq K] [Alg.PivotLaws K]
+    {A : Mat K} {n : Nat} {a : Nat → Nat → K} (h : Is A n n a)
     (hdet : (toMat n a).det ≠ 0) :
     ∃ (B : Mat K) (b : Nat → Nat → K), inverse A = .ok B ∧ Is B n n b ∧
       toMat n a * toMat n b = 1 := by
@@ -1017,7 +1031,8 @@ theorem foldlM_range_rev_err {σ : Type} (Q : Nat → σ → Prop) (f : σ → N
         ⟨i0, by omega, hfail⟩
     · rw [herr]
 
-theorem invBack_fails {lu inv : Mat K} {n : Nat} {w v : Nat → Nat → K} (hw : Is lu n n w)
+theorem invBack_fails [BEq K] [ScalarExt K] [DecidableEq K] [Alg.DivLaw K]
+    {lu inv : Mat K} {n : Nat} {w v : Nat → Nat → K} (hw : Is lu n n w)
     (hv : Is inv n n v) {j : Nat} (hj : j < n) (hz : ∃ k, k < n ∧ w k k = 0) :
     (List.range n).reverse.foldlM (fun inv i => do
         let inv ← forM' (i + 1) n inv (fun inv k => do
@@ -1039,7 +1054,7 @@ theorem invBack_fails {lu inv : Mat K} {n : Nat} {w v : Nat → Nat → K} (hw :
     simp only [bind, Except.bind] at hs1' ⊢
     rw [hs1']
     obtain ⟨val, hval⟩ : ∃ val, s1.get i j = .ok val := ⟨_, hI1.get hi hj⟩
-    simp only [hval, hw.get hi hi, Alg.divM_eq]
+    simp only [hval, hw.get hi hi, Alg.divM_law]
     by_cases hp : w i i = 0
     · right
       simp [hp]
@@ -1054,12 +1069,13 @@ theorem invBack_fails {lu inv : Mat K} {n : Nat} {w v : Nat → Nat → K} (hw :
     simp only [bind, Except.bind] at hs1' ⊢
     rw [hs1']
     obtain ⟨val, hval⟩ : ∃ val, s1.get i0 j = .ok val := ⟨_, hI1.get hi0 hj⟩
-    simp only [hval, hw.get hi0 hi0, Alg.divM_eq]
+    simp only [hval, hw.get hi0 hi0, Alg.divM_law]
     simp [hzero]
 
 /-- **`inverse()` on a singular matrix** panics with a division by an exact zero (class `arith`):
     the skipped column left a zero on the diagonal of `U` -/
-theorem inverse_singular {A : Mat K} {n : Nat} {a : Nat → Nat → K} (h : Is A n n a)
+theorem inverse_singular [BEq K] [LawfulBEq K] [ScalarExt K] [DecidableEq K] [Alg.PivotLaws K]
+    {A : Mat K} {n : Nat} {a : Nat → Nat → K} (h : Is A n n a)
     (hdet : (toMat n a).det = 0) : inverse A = .error .arith := by
   obtain ⟨s, w, pe, hs, hw, hpe, hdU, hdP, hLU⟩ := luDecomp_spec_det h
   have hz : ∃ k, k < n ∧ w k k = 0 := by
